@@ -154,14 +154,25 @@ def track_dispatch_wiring(a0: bool, a1: bool, a2: bool, b0: bool, b1: bool, b2: 
                 break
         else:
             nrej += 1
+    # which position of the returned tuple holds which kind is the implementation's own business
+    # (its callers are checked at the level of the parsed tracks): every kind's data must form
+    # exactly one of the returned lists, complete and in file order, and nothing else is returned
     ok = len(out) == 3 and len(log.warnings) == nrej
+    used = []
     for k in range(3):
-        lst = out[pos[k]]
-        ok = ok and len(lst) == len(want[k])
-        if not ok:
+        found = None
+        for ppos in range(3):
+            lst = out[ppos]
+            if ppos in used or len(lst) != len(want[k]):
+                continue
+            match = True
+            for j, i in enumerate(want[k]):
+                match = match and lst[j].kind == k and lst[j].line == wl[i]
+            if match and found is None:
+                found = ppos
+        if found is None:
             return done(False)
-        for j, i in enumerate(want[k]):
-            ok = ok and lst[j].kind == k and lst[j].line == wl[i]
+        used.append(found)
     return done(ok)
 
 
